@@ -3,7 +3,7 @@
 From Verif Require Import Base.Tactics Base.ZList Base.Val.
 From Verif Require Import Base.Str.
 From Verif Require Import Model.BufReaderModel Model.RangeModel Model.IsoTimeModel Model.TimingModel Model.SegModel.
-From Verif Require Import Base.Bits Model.CrcModel Model.EventsModel Model.Scte35Model Model.MpsModel Model.AuthModel Model.OptionsModel Model.BoxModel Model.FragModel Model.DrmModel.
+From Verif Require Import Base.Bits Model.CrcModel Model.EventsModel Model.Scte35Model Model.MpsModel Model.AuthModel Model.OptionsModel Model.BoxModel Model.FragModel Model.DrmModel Model.ErrModel Model.OptErrModel.
 
 (* ---- C20 ---- request: (file off bs maxb (size?) mode ops) *)
 Definition c20_op (v : val) : op :=
@@ -337,8 +337,34 @@ Definition c11_run (v : val) : val :=
                                (map vints (vlist (vnth 2 v)))))
   else verr 994.
 
+(* ---- C16 ---- request: list of HTTP requests of one session, threaded through the counter state.
+   media request:    (0 usage (fc?) ((code pos) ...) seg)
+   manifest request: (1 (fc?) ((code kind v) ...) (upd?) now mup)   kind 0 = number, 1 = time *)
+Definition c16_step (sv : sess * list val) (r : val) : sess * list val :=
+  let s := fst sv in
+  let kind := vint (vnth 0 r) in
+  if kind =? 0 then
+    let errs := map (fun e => (vint (vnth 0 e), vint (vnth 1 e))) (vlist (vnth 3 r)) in
+    let '(o, s') := media_check (vint (vnth 1 r)) (as_opt_int (vnth 2 r)) errs (vint (vnth 4 r)) s in
+    (s', vopt_int o :: snd sv)
+  else
+    let errs := map (fun e => (vint (vnth 0 e),
+                               if vint (vnth 1 e) =? 0 then MNum (vint (vnth 2 e)) else MTime (vint (vnth 2 e))))
+                    (vlist (vnth 2 r)) in
+    let '(o, s') := manifest_check (as_opt_int (vnth 1 r)) errs (as_opt_int (vnth 3 r)) (vint (vnth 4 r)) (vint (vnth 5 r)) s in
+    (s', vopt_int o :: snd sv).
+Definition c16_run (v : val) : val :=
+  let mode := vint (vnth 0 v) in
+  if mode =? 0 then VL (rev (snd (fold_left c16_step (vlist (vnth 1 v)) ([], []))))
+  else if mode =? 1 then VI (time_to_segment (vint (vnth 1 v)) (vint (vnth 2 v)) (vint (vnth 3 v)) (vint (vnth 4 v)))
+  else if mode =? 2 then
+    (* (2 (kindcode default) text): from_string on the decoded query value; () = ValueError *)
+    match parse_any (c07_kind (vnth 1 v)) (vints (vnth 2 v)) with Some x => VL [c07_value_out x] | None => VL [] end
+  else verr 993.
+
 Definition dispatch (comp : Z) (v : val) : val :=
   if comp =? 20 then c20_run v
+  else if comp =? 16 then c16_run v
   else if comp =? 11 then c11_run v
   else if comp =? 3 then c03_run v
   else if comp =? 4 then c04_run v
